@@ -1,4 +1,5 @@
 import SppModel.Generated.ReaderArith
+import SppModel.Frozen.ReaderArith
 import SppModel.Model.Pfits
 /-!
 # Source tie — `PFITSReader.read_plan` / `read_block` arithmetic (C18)
@@ -7,9 +8,9 @@ import SppModel.Model.Pfits
 translator no longer recognises is listed in its `translationFailures` (the module still elaborates).
 -/
 namespace SppModel.Tie
-open SppModel SppModel.Generated.ReaderArith
+open SppModel SppModel.Frozen.ReaderArith
 
-theorem pfits_translated : ∀ f ∈ translationFailures, f.1 ∉ ["FilReader_planArith", "PFITSReader_planArith", "PFITSReader_rowArith"] := by
+theorem pfits_translated : ∀ f ∈ Generated.ReaderArith.translationFailures, f.1 ∉ ["FilReader_planArith", "PFITSReader_planArith", "PFITSReader_rowArith"] := by
   decide
 
 /-- the PSRFITS reader uses the same plan arithmetic as `FilReader.read_plan`, token for token -/
